@@ -15,7 +15,7 @@ RULE = (
     "Each case is one configuration drawn from the product QCD order 1-4 x QED order 0-2 (em_running on/off) x 8 solution "
     "methods x scale variation {none, exponentiated xif!=1, expanded xif!=1} x inversion {exact, expanded} x {unpolarised, "
     "polarised, time-like, polarised+time-like} x path {single segment, up across one threshold, down across one "
-    "threshold; in a sixth of the cases with the target exactly on the crossed matching scale or exactly at the initial scale} x initial nf 3-6, on a 2-3 point grid with couplings in the perturbative range. Outcome must be either an "
+    "threshold; in a third of the cases with the target exactly on the crossed matching scale or exactly at the initial scale} x initial nf 3-6, on a 2-3 point grid with couplings in the perturbative range. Outcome must be either an "
     "archive whose operator and error entries are all finite, or NotImplementedError / ValueError with a non-empty "
     "message; any other exception or a non-finite entry is a violation. Configurations whose ingredients the docs declare "
     "unavailable (TimeLike.rst: time-like AD only up to NNLO; pQCD.rst/Matching.rst: polarised AD and matching only up to "
@@ -37,7 +37,7 @@ LEVEL_TEXT = (
 
 def budget(tier):
     if tier == "quick":
-        return dict(max_examples=192, shards=16, wall_s=80, shrink_s=40)
+        return dict(max_examples=256, shards=16, wall_s=100, shrink_s=40)
     return dict(max_examples=6000, shards=16, wall_s=2400, shrink_s=200)
 
 
@@ -48,10 +48,10 @@ def strategy(tier):
     def build(draw):
         qcd = draw(st.sampled_from((1, 2, 3, 4)))
         qe = draw(st.sampled_from((0, 0, 0, 1, 2)))
-        method = draw(st.sampled_from(ru.METHODS + ["iterate-exact"] * (3 if qe else 0)))
+        method = draw(st.sampled_from(ru.METHODS + ["iterate-exact"] * (8 if qe else 0)))
         flags = draw(st.sampled_from(((False, False),) * 3 + ((True, False), (False, True), (True, True))))
         path = draw(st.sampled_from(("single", "up", "down")))
-        svm = draw(st.sampled_from((None, None, "exponentiated", "expanded")))
+        svm = draw(st.sampled_from((None, "exponentiated", "expanded")))
         nf0 = draw(st.sampled_from((3, 4, 5, 6)))
         if path == "up" and nf0 == 6:
             nf0 = 5
@@ -68,7 +68,7 @@ def strategy(tier):
             mu = ru.scale_in_patch(draw, st, nff, walls, lo=1.0, hi=300.0)
         # boundary values of the path shapes: a target exactly on the crossed matching scale (zero-length last segment)
         # or exactly at the initial scale
-        edge = draw(st.integers(0, 5))
+        edge = draw(st.integers(0, 2))
         if edge == 0 and path != "single":
             w = walls[min(nf0, nff) - 3]
             mu = math.sqrt((base["ratios"][min(nf0, nff) - 3] ** 2) * (base["masses"][min(nf0, nff) - 3] ** 2))
